@@ -27,18 +27,23 @@ def topo_json(mesh):
     for i in range(mesh['n']):
         els += [nets.trx(T(i)), nets.roadm(R(i))]
         cxs += [nets.cx(T(i), R(i)), nets.cx(R(i), T(i))]
-    for (a, b, ab, ba, style) in mesh['links']:
+    for lk in mesh['links']:
+        a, b, ab, ba, style = lk[:5]
+        tag = lk[5] if len(lk) > 5 else ''        # a second (parallel) link between the same ROADMs carries a tag
         for (x, y, spans) in ((a, b, ab), (b, a, ba)):
             if not spans:        # unidirectional link (only one line)
                 continue
             line = []
             for k, km in enumerate(spans):
                 if k > 0 and style == 'fused':
-                    line.append(nets.fused(f'fused (N{x} -> N{y})-{k}'))
+                    line.append(nets.fused(f'fused (N{x} -> N{y}){tag}-{k}'))
                 if k > 0 and style == 'edfa':
-                    line.append(nets.edfa(f'ila (N{x} -> N{y})-{k}', type_variety='std_medium_gain',
+                    line.append(nets.edfa(f'ila (N{x} -> N{y}){tag}-{k}', type_variety='std_medium_gain',
                                           operational={'gain_target': None, 'tilt_target': 0}))
-                line.append(nets.fiber(f'fiber (N{x} -> N{y})-{k}', float(km)))
+                line.append(nets.fiber(f'fiber (N{x} -> N{y}){tag}-{k}', float(km)))
+            if style == 'fusedend':       # two Fused (patch panels) in front of the far ROADM instead of a pre-amplifier:
+                line.append(nets.fused(f'fused (N{x} -> N{y}){tag}-end1'))       # one element more than a plain line
+                line.append(nets.fused(f'fused (N{x} -> N{y}){tag}-end2'))
             nets.chain(els, cxs, R(x), R(y), line)
     return {'elements': els, 'connections': cxs}
 
@@ -82,7 +87,7 @@ def _link(rng, a, b, equal_bias):
     return [a, b, ab, ba, style]
 
 
-def rand_mesh(rng, n, shape=None, max_extra=None):
+def rand_mesh(rng, n, shape=None, max_extra=None, parallel=0.0):
     """ring / grid / random connected graph on n ROADMs, no parallel links"""
     shape = shape or rng.choice(['ring', 'grid', 'random', 'random', 'tree+'])
     pairs = set()
@@ -117,6 +122,10 @@ def rand_mesh(rng, n, shape=None, max_extra=None):
                 extra -= 1
     equal_bias = rng.choice([0.85, 1.0, 0.5])
     links = [_link(rng, a, b, equal_bias) for (a, b) in sorted(pairs)]
+    if parallel and links and rng.random() < parallel:
+        # a PARALLEL link: a second pair of lines between two ROADMs that are already linked
+        a, b = rng.choice(links)[:2]
+        links.append(_link(rng, a, b, equal_bias) + ['#2'])
     if rng.random() < 0.25:     # many ties: all spans the same length
         km = rng.choice([40, 80])
         for lk in links:
@@ -152,13 +161,13 @@ def req_json(rid, src, dst, inc=(), bidir=False, mode='mode 1', bandwidth=100e9,
     return r
 
 
-def service_json(reqs, sync=()):
+def service_json(reqs, sync=(), disjointness='node link'):
     """reqs: list of dicts {'id','src','dst','inc':[[uid,hop],...],'bidir'}; sync: list of lists of request ids"""
     d = {'path-request': [req_json(r['id'], r['src'], r['dst'], r.get('inc') or (), r.get('bidir', False),
                                    r.get('mode', 'mode 1'), doc=r.get('doc')) for r in reqs]}
     if sync:
         d['synchronization'] = [{'synchronization-id': f's{k}',
-                                 'svec': {'relaxable': False, 'disjointness': 'node link',
+                                 'svec': {'relaxable': False, 'disjointness': disjointness,
                                           'request-id-number': [str(x) for x in grp]}}
                                 for k, grp in enumerate(sync)]
     return copy.deepcopy(d)
